@@ -31,18 +31,32 @@ def gen_case(rng: random.Random, idx: int, heavy: bool) -> dict:
         n = rng.randint(150, 200) if heavy or rng.random() < 0.5 else rng.randint(40, 90)
     elif shape == 3:
         n = rng.choice([2, 3, 4, 5])
+    elif shape == 6:
+        n = len(S.EXC_KIND_NAMES) + rng.randint(2, 12)  # the exception matrix: every kind raised once in one run
     else:
         n = rng.randint(3, 60)
     p_exc = rng.choice([0.0, 0.1, 0.3, 0.5, 1.0])
+    raising = None
+    if shape == 6:
+        raising = set(rng.sample(range(n), len(S.EXC_KIND_NAMES)))
+    kind_at = rng.randrange(len(S.EXC_KIND_NAMES))      # the kinds rotate over the raising payloads of the case
     budget_ms = rng.choice([0, 150, 400, 700])         # total sleeping time per worker, roughly
     mean = 0 if n == 0 else min(25.0, budget_ms * w / max(n, 1))
     cls_pool = rng.choice([['plain'], ['plain', 'proto', 'visual'], ['visual'], ['proto']])
+    groups = 0
+    if idx % 4 == 1:
+        # payloads whose == / hash do not look at the id: different tasks compare equal (1..3 equivalence classes)
+        cls_pool = rng.choice([[c] for c in S.EQ_CLASS_NAMES] + [['group', 'groupnohash'], ['data', 'visual'], ['listy', 'plain']])
+        groups = rng.choice([1, 2, 3])
     specs = []
     for i in range(n):
         cls = rng.choice(cls_pool)
         exc = None
-        if rng.random() < p_exc:
-            exc = rng.choice([k for k in S.EXC_KIND_NAMES if not (cls == 'visual' and k == 'type')])
+        if (rng.random() < p_exc) if raising is None else (i in raising):
+            exc = S.EXC_KIND_NAMES[kind_at % len(S.EXC_KIND_NAMES)]
+            kind_at += 1
+            if cls == 'visual' and S.is_type_error(exc):
+                cls = 'plain'
         pattern = rng.random()
         if pattern < 0.15:
             sleep = round(mean * 4, 2)                  # a straggler
@@ -52,12 +66,42 @@ def gen_case(rng: random.Random, idx: int, heavy: bool) -> dict:
             sleep = round(rng.uniform(0, 2 * mean), 2)
         specs.append({'uid': 1000 * (idx + 1) + i, 'exc': exc, 'cls': cls, 'sleep': sleep,
                       'raises': 'none' if cls == 'visual' else rng.choice(S.RAISES_NAMES)})
+        if groups:
+            specs[-1]['group'] = f'g{rng.randrange(groups)}'
     if n and rng.random() < 0.3:                        # first submitted finishes last
         specs[0]['sleep'] = round(max(specs[0]['sleep'], mean * 6), 2)
+    if idx % 4 == 3 and n >= 2:
+        list_again(rng, specs, S.LIST_KEYS[(idx // 4) % 2])
     args, kwargs = rng.choice([([], {}), ([7], {}), (['x', 2], {'k': 'v'}), ([], {'flag': True})])
     return {'idx': idx, 'workers': workers, 'specs': specs, 'args': args, 'kwargs': kwargs,
             'entry': 'legacy' if rng.random() < 0.2 else 'parproc', 'pickable': rng.random() < 0.25,
             'gc_phase': rng.randrange(0, 700)}
+
+
+def list_again(rng: random.Random, specs: list, first_key: str) -> None:
+    """some payloads are listed more than once (overlapping globs): the very same object again ('same_as') or a
+    separately built payload from the same spec ('twin_of'; equal where the class compares by value).  The repetition
+    has the uid and the behaviour of the first occurrence; the checker wants as many results as list positions.
+    The first repetition is of the kind `first_key` (rotates with the case index), a twin there is an equal one."""
+    n = len(specs)
+    taken = set()                                       # positions that are a first occurrence of something repeated
+    for t in range(max(1, n // 4)):
+        i = rng.randrange(1, n)
+        if i in taken or any(k in specs[i] for k in S.LIST_KEYS):
+            continue
+        j = rng.randrange(0, i)
+        for k in S.LIST_KEYS:
+            j = specs[j].get(k, j)
+        key = rng.choice(S.LIST_KEYS) if t else first_key
+        if key == 'twin_of' and specs[j]['cls'] in ('plain', 'proto') and j not in taken and (t == 0 or rng.random() < 0.6):
+            # a class that compares by value, so that the twins are equal
+            specs[j]['cls'] = 'group' if S.is_type_error(specs[j]['exc']) or rng.random() < 0.5 else 'visual'
+            if specs[j]['cls'] == 'visual':
+                specs[j]['raises'] = 'none'
+            else:
+                specs[j]['group'] = 'g'
+        taken.add(j)
+        specs[i] = dict({k: v for k, v in specs[j].items() if k not in S.LIST_KEYS}, **{key: j})
 
 
 # disturbances of a run, rotated over the disturbed cases of a shard (see gen_disturbed)
@@ -83,7 +127,7 @@ def gen_disturbed(rng: random.Random, idx: int, kind: str, heavy: bool) -> dict:
         cls = rng.choice(cls_pool)
         exc = None
         if rng.random() < p_exc:
-            exc = rng.choice([k for k in S.EXC_KIND_NAMES if not (cls == 'visual' and k == 'type')])
+            exc = rng.choice([k for k in S.EXC_KIND_NAMES if not (cls == 'visual' and S.is_type_error(k))])
         specs.append({'uid': 1000 * (idx + 1) + i, 'exc': exc, 'cls': cls, 'sleep': rng.choice([0, 0, 1, 3, 8]),
                       'raises': 'none' if cls == 'visual' else rng.choice(S.RAISES_NAMES)})
     args, kwargs = rng.choice([([], {}), ([7], {}), (['x', 2], {'k': 'v'})])
